@@ -18,8 +18,11 @@ pipeline stage in two forms), sharing the process-wide `World`.  `subshell_prese
 is the property; its guard is "no `umask`/`ulimit` in the subshell" for the `World` half, and the
 full statement is refuted by `subshell_cex_umask` / `subshell_cex_ulimit` (`(umask 077); umask`
 prints 0077 today).  `nothing_else_flows_back_partial` says the parent afterwards is a function of
-its state before, the subshell's status and its output — guarded by "no pipeline stage ends in a
-Rust `Err`", refuted without the guard by `stage_error_cex` (`cd /nonexistent | true; echo after`).
+its own activity, the subshell's status and its output — guarded by "the parent's line goes on",
+which fails only when a pipeline stage ends in a Rust `Err` (`stage_error_cex`:
+`cd /nonexistent | true; echo after`).  The `lastpipe` theorems separate the last command of a
+pipeline (the parent's own under `shopt -s lastpipe`, its effects persist) from all earlier stages
+(always isolated).
 `concurrent_child_invisible_partial` covers every interleaving of a background body with parent
 activity.
 -/
@@ -53,10 +56,12 @@ example : shellFields.length ≥ 20 ∧ (shellFields.filter (fun f => classify f
 /-! ## isolation of the `Shell` value -/
 
 /-- **The property.**  For every context, every mutator sequence of any length, every parent state:
-the parent's `Shell` value afterwards is what it was when the clone was made; and the process-wide
-state is unchanged too when the sequence contains no `umask`/`ulimit`. -/
+the parent's `Shell` value afterwards is the result of the parent's *own* activity only (`parentOwn`:
+nothing, except a coprocess's pipe ends and — with `shopt -s lastpipe` — the last command of a
+pipeline, which is not a subshell); and the process-wide state is unchanged too when the sequence
+contains no `umask`/`ulimit`. -/
 theorem subshell_preserves_parent_partial (root : List Str) (c : Ctx) (ms : List Mut) (p : ShellPart) (w : World) :
-    (exec root c ms p w).shell = prepare c p ∧
+    (exec root c ms p w).shell = parentOwn root c ms p ∧
     ((∀ m ∈ ms, m.touchesWorld = false) → (exec root c ms p w).world = w) :=
   ⟨exec_shell root c ms p w, exec_world root c ms p w⟩
 
@@ -72,6 +77,46 @@ example :
     (childRun fresh ["r".toList] ms p ⟨18, 1024⟩).sh ≠ p ∧
     (exec ["r".toList] .paren ms p ⟨18, 1024⟩).shell = p ∧ (exec ["r".toList] .paren ms p ⟨18, 1024⟩).status = 3 := by
   decide
+
+/-- In every context but a pipeline ending in a mutator, the parent's own activity is `prepare`
+(nothing, or the coprocess pipe ends): there the parent's `Shell` value is simply unchanged. -/
+theorem subshell_preserves_parent_value (root : List Str) (c : Ctx) (ms : List Mut) (p : ShellPart) (w : World)
+    (hc : c ≠ .pl) : (exec root c ms p w).shell = prepare c p := by
+  rw [exec_shell]; cases c <;> simp_all [parentOwn]
+
+/-! ## pipelines and `lastpipe` -/
+
+/-- **Non-final stages stay isolated, `lastpipe` or not.**  Whatever the stages before the last one
+do (any number of them, any mutators), the parent ends with the same `Shell` value as if they had
+done nothing: only the last command can matter. -/
+theorem nonfinal_stage_isolated_under_lastpipe (root : List Str) (init init' : List Mut) (l : Mut)
+    (p : ShellPart) (w : World) (h : init.isEmpty = init'.isEmpty) :
+    (exec root .pl (init ++ [l]) p w).shell = (exec root .pl (init' ++ [l]) p w).shell :=
+  pl_init_irrelevant root init init' l p w h
+
+/-- **Under `lastpipe` the last stage is the parent's own command**: its effects persist, its status
+and output are the pipeline's, and nothing of the earlier stages is in the result. -/
+theorem last_stage_effects_persist_under_lastpipe (root : List Str) (init : List Mut) (l : Mut)
+    (p : ShellPart) (w : World) (h : lastpipeOn p = true) :
+    (exec root .pl (init ++ [l]) p w).shell = (stepShell root l p).sh ∧
+    (exec root .pl (init ++ [l]) p w).status = (stepShell root l p).status ∧
+    (exec root .pl (init ++ [l]) p w).out = (stepShell root l p).out :=
+  pl_lastpipe root init l p w h
+
+/-- **Without `lastpipe` the last stage of a real pipeline is a subshell too.** -/
+theorem last_stage_isolated_without_lastpipe (root : List Str) (init : List Mut) (l : Mut)
+    (p : ShellPart) (w : World) (h : lastpipeOn p = false) (hi : init ≠ []) :
+    (exec root .pl (init ++ [l]) p w).shell = p :=
+  pl_nolastpipe root init l p w h hi
+
+/-- `shopt -s lastpipe; v1=a | f1() …  | v1=c`: only `v1=c` is in the parent afterwards; without lastpipe nothing is -/
+example :
+    let on : ShellPart := (stepShell [] (.shopt "lastpipe".toList true) (defaultShell [])).sh
+    let ms : List Mut := [.assign "v1".toList "a".toList, .defun "f1".toList "A".toList, .assign "v1".toList "c".toList]
+    lastpipeOn on = true ∧
+    (exec [] .pl ms on ⟨18, 1024⟩).shell = (stepShell [] (.assign "v1".toList "c".toList) on).sh ∧
+    (exec [] .pl ms on ⟨18, 1024⟩).shell ≠ on ∧
+    (exec [] .pl ms (defaultShell []) ⟨18, 1024⟩).shell = defaultShell [] := by decide
 
 /-- Full statements: the process-wide state too is what it was. -/
 def umask_isolation_full : Prop :=
@@ -97,27 +142,35 @@ theorem umask_leaks_in_every_context :
 
 /-! ## only status and output come back -/
 
-/-- **Nothing else flows back.**  If no `umask`/`ulimit` runs in the subshell and no pipeline stage
-ends in a Rust `Err`, then what the parent observes afterwards — its `Shell` value, the process,
-`$?`, the text received, and whether its command line goes on — is determined by its own earlier
-state together with the subshell's status and output, and the command line goes on. -/
+/-- **Nothing else flows back.**  If no `umask`/`ulimit` runs in the subshell and the parent's command
+line goes on (which it always does outside pipelines of builtin stages, `parent_continues_partial`),
+then what the parent observes afterwards — its `Shell` value, the process, `$?`, the text received —
+is determined by its own activity together with the subshell's status and output. -/
 theorem nothing_else_flows_back_partial (root : List Str) (c : Ctx) (ms : List Mut) (p : ShellPart) (w : World)
     (hw : ∀ m ∈ ms, m.touchesWorld = false)
-    (he : c = .stages → stagesErr fresh root ms (prepare c p) = false) :
+    (he : (exec root c ms p w).aborted = false) :
     exec root c ms p w =
-      { shell := prepare c p, world := w, status := (exec root c ms p w).status,
+      { shell := parentOwn root c ms p, world := w, status := (exec root c ms p w).status,
         out := (exec root c ms p w).out, aborted := false } :=
   exec_eq root c ms p w hw he
 
-/-- Two subshell bodies with the same status and output are indistinguishable to the parent. -/
+/-- The parent's line goes on after every context other than a pipeline of builtin stages; after
+`m1 | … | true` it goes on exactly when no stage ends in a Rust `Err`. -/
+theorem parent_continues_partial (root : List Str) (c : Ctx) (ms : List Mut) (p : ShellPart) (w : World) :
+    (c ≠ .stages ∧ c ≠ .pl → (exec root c ms p w).aborted = false) ∧
+    (exec root .stages ms p w).aborted = stagesErr fresh root ms p :=
+  ⟨exec_aborted root c ms p w, exec_aborted_stages root ms p w⟩
+
+/-- Two subshell bodies with the same status and output, under the same own activity of the parent,
+are indistinguishable to the parent. -/
 theorem only_status_and_output_flow_back (root : List Str) (c : Ctx) (ms₁ ms₂ : List Mut) (p : ShellPart) (w : World)
     (h₁ : ∀ m ∈ ms₁, m.touchesWorld = false) (h₂ : ∀ m ∈ ms₂, m.touchesWorld = false)
-    (e₁ : c = .stages → stagesErr fresh root ms₁ (prepare c p) = false)
-    (e₂ : c = .stages → stagesErr fresh root ms₂ (prepare c p) = false)
+    (e₁ : (exec root c ms₁ p w).aborted = false) (e₂ : (exec root c ms₂ p w).aborted = false)
+    (ho : parentOwn root c ms₁ p = parentOwn root c ms₂ p)
     (hs : (exec root c ms₁ p w).status = (exec root c ms₂ p w).status)
-    (ho : (exec root c ms₁ p w).out = (exec root c ms₂ p w).out) :
+    (hout : (exec root c ms₁ p w).out = (exec root c ms₂ p w).out) :
     exec root c ms₁ p w = exec root c ms₂ p w := by
-  rw [exec_eq root c ms₁ p w h₁ e₁, exec_eq root c ms₂ p w h₂ e₂, hs, ho]
+  rw [exec_eq root c ms₁ p w h₁ e₁, exec_eq root c ms₂ p w h₂ e₂, hs, hout, ho]
 
 example :
     let ms₁ : List Mut := [.assign "v1".toList "q".toList, .cd "..".toList, .exit 3]
@@ -136,10 +189,11 @@ theorem stage_error_cex : ¬ parent_continues_full := by
   revert this; decide
 
 /-- An `exit` in a subshell never ends the parent, in any context (the parent's line goes on). -/
-theorem exit_stays_in_subshell (root : List Str) (c : Ctx) (n : Nat) (p : ShellPart) (w : World) :
+theorem exit_stays_in_subshell (root : List Str) (c : Ctx) (n : Nat) (p : ShellPart) (w : World)
+    (hc : c ≠ .pl) :
     (exec root c [.exit n] p w).aborted = false ∧ (exec root c [.exit n] p w).shell = prepare c p := by
-  refine ⟨?_, exec_shell root c _ p w⟩
-  cases c <;> simp [exec, execWith, stagesErr, stepShell]
+  refine ⟨?_, subshell_preserves_parent_value root c _ p w hc⟩
+  cases c <;> simp_all [exec, execWith, stagesErr, stepShell]
 
 /-! ## a background body interleaved with parent activity -/
 
@@ -156,8 +210,8 @@ example :
       (.child, .cd "..".toList), (.parent, .umask 63), (.child, .unset "v1".toList), (.child, .exit 1),
       (.parent, .alias "a1".toList "true".toList)]
     (∀ e ∈ es, e.1 = Side.child → e.2.touchesWorld = false) ∧
-    (runSched shared ["r".toList] es (fork fresh (defaultShell ["r".toList]) ⟨18, 1024⟩)).par.sh.vars =
-      [("v1".toList, ⟨"p".toList, false, false⟩)] := by decide
+    aget "v1".toList (runSched shared ["r".toList] es (fork fresh (defaultShell ["r".toList]) ⟨18, 1024⟩)).par.sh.vars =
+      some ⟨"p".toList, false, false⟩ := by decide
 
 /-- Full statement (no guard) fails: a child's `umask` is seen by the parent mid-flight. -/
 def concurrent_isolation_full : Prop :=
